@@ -49,7 +49,7 @@ pub fn cargo_build(dir: &Path, bins: &[&str]) -> (bool, String) {
     for b in bins {
         c.arg("--bin").arg(b);
     }
-    c.env("CARGO_TARGET_DIR", target_dir()).env("CARGO_NET_OFFLINE", "true").env("RUSTFLAGS", "-Awarnings");
+    c.env("CARGO_TARGET_DIR", target_dir()).env("CARGO_NET_OFFLINE", "true");
     let out = c.output().unwrap_or_else(|e| machinery_fail(&format!("cannot run cargo: {e}")));
     (out.status.success(), String::from_utf8_lossy(&out.stderr).to_string())
 }
